@@ -458,7 +458,7 @@ def run_item(ctx, item):
                           ["tie_notes"], ["find_tuplets"], ["add_measures", "tie_notes", "tie_notes"],
                           ["add_measures", "add_measures"]])
         for f in seq:
-            if f == "fill_rests" and (not timemaps.objects_of(part, S.Measure) or len(part.quarter_durations()) != 1):
+            if f == "fill_rests" and not timemaps.objects_of(part, S.Measure):
                 continue
             ok, _ = ctx.try_call(getattr(S, f), part)
             if not ok:
